@@ -97,16 +97,26 @@ def run_comp_job(job, seed):
     validated = 0
     sample = None
     n_e2 = job.get('e2', 20)
+    e2_viol = []
     with _Quiet():
         for dg, path in list(res.terminals.items())[:n_e2]:
-            d2 = cls.replay(params, path)
+            try:
+                d2 = cls.replay(params, path)
+            except Violation as v:
+                # only the real run loop (Environment.run / System.simulate) shows this one
+                if len(e2_viol) < 5:
+                    e2_viol.append({'clause': v.clause, 'detail': 'through the real run loop: ' + v.detail,
+                                    'path': [list(x) for x in path], 'scenario': name})
+                continue
             if d2 != dg:
                 raise HarnessError(f'{name}: fork-derived final state {dg} but the linear replay through the real '
                                    f'run loop reached {d2} on the same choice list {path}')
             validated += 1
             if sample is None:
                 sample = [list(x) for x in path]
-    return {'result': res.to_json(), 'violations': res.violations, 'validated': validated, 'sample': sample}
+    rj = res.to_json()
+    rj['violations'] += len(e2_viol)
+    return {'result': rj, 'violations': res.violations + e2_viol, 'validated': validated, 'sample': sample}
 
 
 def replay_comp(job, path):
